@@ -41,6 +41,7 @@ type stats struct {
 	AllocGuards  int            `json:"alloc_guards"`
 	ChanHoists   int            `json:"chan_operand_hoists"`
 	Pools        int            `json:"sync_pool_calls"`
+	Globals      int            `json:"package_level_vars_snapshotted"`
 	Skipped      []string       `json:"skipped"`
 	PerPackage   map[string]int `json:"sites_per_package"`
 	Files        int            `json:"files"`
@@ -865,6 +866,51 @@ func rewritePackage(l *loaded) error {
 	return nil
 }
 
+// writeGlobals generates zz_verif_globals.go for one package: a snapshot/restore pair over every
+// package-level variable, registered with simrt. The harness takes the snapshot once (after all package
+// initialisation) and restores it before every simulated run, so that each run starts from the state
+// of a freshly started process: lazily built tables, spare buffers, counters and sync.Once values that
+// a change may introduce at package level are cold again, and runs do not influence each other.
+// The copy is shallow, which is what "as after package initialisation" means for everything that is
+// not mutated in place.
+func writeGlobals(l *loaded) error {
+	var names []string
+	for _, f := range l.files {
+		for _, d := range f.Decls {
+			gd, ok := d.(*ast.GenDecl)
+			if !ok || gd.Tok != token.VAR {
+				continue
+			}
+			for _, sp := range gd.Specs {
+				if vs, ok := sp.(*ast.ValueSpec); ok {
+					for _, n := range vs.Names {
+						if n.Name != "_" {
+							names = append(names, n.Name)
+						}
+					}
+				}
+			}
+		}
+	}
+	if len(names) == 0 {
+		return nil
+	}
+	sort.Strings(names)
+	var b bytes.Buffer
+	fmt.Fprintf(&b, "//go:build verif\n\n// Code generated by vinstr; DO NOT EDIT. Snapshot and restore of package-level state.\n\npackage %s\n\nimport %q\n\n", l.files[0].Name.Name, rtPath)
+	fmt.Fprintf(&b, "func init() {\n\tsimrt.RegisterGlobals(%q, func() func() {\n", l.rel)
+	for i, n := range names {
+		fmt.Fprintf(&b, "\t\ts%d := %s\n", i, n)
+	}
+	fmt.Fprintf(&b, "\t\treturn func() {\n")
+	for i, n := range names {
+		fmt.Fprintf(&b, "\t\t\t%s = s%d\n", n, i)
+	}
+	fmt.Fprintf(&b, "\t\t}\n\t})\n}\n")
+	st.Globals += len(names)
+	return os.WriteFile(filepath.Join(l.rel, "zz_verif_globals.go"), b.Bytes(), 0644)
+}
+
 func addImport(f *ast.File) {
 	imp := &ast.GenDecl{Tok: token.IMPORT, Specs: []ast.Spec{&ast.ImportSpec{Path: &ast.BasicLit{Kind: token.STRING, Value: strconv.Quote(rtPath)}}}}
 	f.Decls = append([]ast.Decl{imp}, f.Decls...)
@@ -993,6 +1039,10 @@ func main() {
 		os.Exit(2)
 	}
 	for _, l := range pkgs {
+		if err := writeGlobals(l); err != nil {
+			fmt.Fprintln(os.Stderr, "vinstr:", err)
+			os.Exit(2)
+		}
 		if err := rewritePackage(l); err != nil {
 			fmt.Fprintln(os.Stderr, "vinstr:", err)
 			os.Exit(2)
